@@ -8,7 +8,7 @@ Import ListNotations.
 Open Scope Z_scope.
 
 Ltac gen_unfold := unfold free_f in *;
-  unfold add_f, sub_f, gt_reject, lt_reject, eq_reject, neg_test, pos_reject, drop_test, set_reject in *.
+  unfold add_f, sub_f, gt_reject, lt_reject, eq_reject, neg_test, pos_reject, drop_test, set_reject, fdrop_test in *.
 
 Lemma gen_ok_true : gen_ok = true.
 Proof. reflexivity. Qed.
@@ -181,4 +181,183 @@ Proof.
   unfold commas, strip_commas. rewrite filter_app, filter_rev, group3_strip, <- filter_rev, rev_involutive.
   rewrite (filter_all _ _ (abs_digits_nocomma z)).
   rewrite (str_of_Z_abs z). destruct (z <? 0); reflexivity.
+Qed.
+
+(* ---------------- further laws (extension round) ---------------- *)
+From Coq Require Import Permutation.
+
+Lemma sub_add_cancel a b : List.length a = List.length b -> cadd (csub a b) b = a.
+Proof.
+  unfold csub, cadd. revert b; induction a as [|x a IH]; destruct b as [|y b]; simpl; intros H; try discriminate; auto.
+  f_equal; [gen_unfold; lia | apply IH; lia].
+Qed.
+
+Lemma sub_self a : csub a a = repeat 0 (List.length a).
+Proof. unfold csub. induction a as [|x a IH]; simpl; auto. f_equal; [gen_unfold; lia | exact IH]. Qed.
+
+Lemma add_zero_r a : cadd a (repeat 0 (List.length a)) = a.
+Proof. unfold cadd. induction a as [|x a IH]; simpl; auto. f_equal; [gen_unfold; lia | exact IH]. Qed.
+
+Lemma sub_zero_r a : csub a (repeat 0 (List.length a)) = a.
+Proof. unfold csub. induction a as [|x a IH]; simpl; auto. f_equal; [gen_unfold; lia | exact IH]. Qed.
+
+Lemma czero_repeat : czero = repeat 0 nfields.
+Proof. vm_compute. reflexivity. Qed.
+
+Lemma czero_wf : wf czero.
+Proof. vm_compute. reflexivity. Qed.
+
+Lemma free_none t : wf t -> cfree_none t = t.
+Proof. unfold cfree_none, wf. intros H. rewrite free_is_sub, czero_repeat, <- H. apply sub_zero_r. Qed.
+
+Lemma lt_gt_dual a b : clt a b = cgt b a.
+Proof.
+  unfold clt, cgt. f_equal. revert b; induction a as [|x a IH]; destruct b as [|y b]; simpl; auto.
+  rewrite IH. f_equal. gen_unfold. lia.
+Qed.
+
+Lemma fits_refl a : clt a a = true.
+Proof. unfold clt. induction a as [|x a IH]; simpl; auto. rewrite negb_orb, IH. gen_unfold. lia. Qed.
+
+Lemma fits_antisym a b : List.length a = List.length b -> clt a b = true -> clt b a = true -> a = b.
+Proof.
+  unfold clt. revert b; induction a as [|x a IH]; destruct b as [|y b]; simpl; intros H; try discriminate; auto.
+  rewrite !negb_orb, !andb_true_iff. intros [H1 H2] [H3 H4]. f_equal; [gen_unfold; lia | apply IH; auto].
+Qed.
+
+Lemma fits_trans a b c : List.length a = List.length b -> List.length b = List.length c ->
+  clt a b = true -> clt b c = true -> clt a c = true.
+Proof.
+  unfold clt. revert b c; induction a as [|x a IH]; destruct b as [|y b]; destruct c as [|z c]; simpl;
+    intros Hab Hbc; try discriminate; auto.
+  rewrite !negb_orb, !andb_true_iff. intros [H1 H2] [H3 H4]. split; [gen_unfold; lia | apply (IH b c); auto; lia].
+Qed.
+
+(* a fits in b exactly when every field of a is at most the same field of b *)
+Lemma fits_fieldwise a b : List.length a = List.length b ->
+  (clt a b = true <-> forall i, (i < List.length a)%nat -> nth i a 0 <= nth i b 0).
+Proof.
+  unfold clt. revert b; induction a as [|x a IH]; destruct b as [|y b]; simpl; intros H; try discriminate.
+  - split; auto. intros _ i Hi. lia.
+  - rewrite negb_orb, andb_true_iff, (IH b ltac:(lia)). split.
+    + intros [H1 H2] [|i] Hi; [gen_unfold; lia | apply H2; lia].
+    + intros Hall. split; [specialize (Hall 0%nat ltac:(lia)); simpl in Hall; gen_unfold; lia |].
+      intros i Hi. apply (Hall (Datatypes.S i)). lia.
+Qed.
+
+Lemma positive_fields_true c fs :
+  positive_fields c fs = Some true <-> Forall (fun f => exists v, getf f c = Some v /\ v > 0) fs.
+Proof.
+  induction fs as [|f r IH]; simpl.
+  - split; auto.
+  - destruct (getf f c) as [v|] eqn:E.
+    + destruct (pos_reject v) eqn:P.
+      * split; [discriminate|]. intros HF. inversion HF as [|? ? [v' [Hv Hp]] _]; subst.
+        assert (v' = v) by congruence. subst v'. gen_unfold. lia.
+      * rewrite IH. split.
+        -- intros HF. constructor; auto. exists v. split; auto. gen_unfold. lia.
+        -- intros HF. inversion HF; auto.
+    + split; [discriminate|]. intros HF. inversion HF as [|? ? [v' [Hv _]] _]. congruence.
+Qed.
+
+Lemma positive_fields_false c fs :
+  positive_fields c fs = Some false -> exists f v, In f fs /\ getf f c = Some v /\ v <= 0.
+Proof.
+  induction fs as [|f r IH]; simpl; [discriminate|].
+  destruct (getf f c) as [v|] eqn:E; [|discriminate].
+  destruct (pos_reject v) eqn:P.
+  - intros _. exists f, v. repeat split; auto. gen_unfold. lia.
+  - intros H. destruct (IH H) as [f' [v' [Hin Hr]]]. exists f', v'. split; auto.
+Qed.
+
+Lemma positive_fields_keyerror c fs :
+  positive_fields c fs = None -> exists f, In f fs /\ getf f c = None.
+Proof.
+  induction fs as [|f r IH]; simpl; [discriminate|].
+  destruct (getf f c) as [v|] eqn:E.
+  - destruct (pos_reject v); [discriminate|]. intros H. destruct (IH H) as [f' [Hin Hn]]. exists f'. auto.
+  - intros _. exists f. auto.
+Qed.
+
+(* ---- allocation histories: the accumulated allocation is the field-wise sum, in any order ---- *)
+Lemma cadd_swap z x y : cadd (cadd z x) y = cadd (cadd z y) x.
+Proof. rewrite !add_assoc. f_equal. apply add_comm. Qed.
+
+Lemma fold_cadd_perm l l' : Permutation l l' -> forall z, fold_left cadd l z = fold_left cadd l' z.
+Proof.
+  induction 1 as [|x l l' _ IH|x y l|l l' l'' _ IH1 _ IH2]; intros z; simpl; auto.
+  - rewrite cadd_swap. reflexivity.
+  - rewrite IH1. apply IH2.
+Qed.
+
+Lemma alloc_all_perm l l' : Permutation l l' -> alloc_all l = alloc_all l'.
+Proof. intros H. apply fold_cadd_perm, H. Qed.
+
+Lemma cadd_wf a b : wf a -> wf b -> wf (cadd a b).
+Proof. unfold wf, cadd. intros Ha Hb. rewrite map2_length; lia. Qed.
+
+Lemma fold_cadd_wf l : Forall wf l -> forall z, wf z -> wf (fold_left cadd l z).
+Proof. induction 1 as [|x l Hx _ IH]; intros z Hz; simpl; auto. apply IH, cadd_wf; auto. Qed.
+
+Lemma alloc_all_wf l : Forall wf l -> wf (alloc_all l).
+Proof. intros H. apply fold_cadd_wf; auto. apply czero_wf. Qed.
+
+Lemma alloc_all_snoc l x : alloc_all (l ++ [x]) = cadd (alloc_all l) x.
+Proof. unfold alloc_all. rewrite fold_left_app. reflexivity. Qed.
+
+Lemma release_last l x : Forall wf l -> wf x -> csub (alloc_all (l ++ [x])) x = alloc_all l.
+Proof.
+  intros Hl Hx. rewrite alloc_all_snoc. apply add_sub_cancel.
+  pose proof (alloc_all_wf l Hl) as H. unfold wf in *. lia.
+Qed.
+
+Lemma free_after_history t l : wf t -> Forall wf l -> cadd (cfree t (alloc_all l)) (alloc_all l) = t.
+Proof.
+  intros Ht Hl. apply free_plus_allocated. pose proof (alloc_all_wf l Hl) as H. unfold wf in *. lia.
+Qed.
+
+Lemma fold_cadd_field l : Forall wf l -> forall z i, wf z -> (i < nfields)%nat ->
+  nth i (fold_left cadd l z) 0 = fold_left Z.add (map (fun c => nth i c 0) l) (nth i z 0).
+Proof.
+  induction 1 as [|x l Hx _ IH]; intros z i Hz Hi; simpl; auto.
+  rewrite IH; auto using cadd_wf. f_equal. apply fieldwise_add; unfold wf in *; lia.
+Qed.
+
+Lemma alloc_all_field l i : Forall wf l -> (i < nfields)%nat ->
+  nth i (alloc_all l) 0 = fold_left Z.add (map (fun c => nth i c 0) l) 0.
+Proof.
+  intros Hl Hi. unfold alloc_all. rewrite fold_cadd_field; auto using czero_wf.
+  f_equal. rewrite czero_repeat. apply nth_repeat.
+Qed.
+
+(* ---- FreeCapacity printer: a field is shown unless free and total are both dropped ---- *)
+Lemma fkept_exact t a f fr tot :
+  In (f, (fr, tot)) (fkept t a) <-> In (f, (fr, tot)) (fnamed t a) /\ ~ (fr = 0 /\ tot = 0).
+Proof.
+  unfold fkept. rewrite filter_In. simpl. split; intros [H1 H2]; split; auto; gen_unfold; lia.
+Qed.
+
+Lemma negative_free_kept t a f fr tot : In (f, (fr, tot)) (fnamed t a) -> fr < 0 -> In (f, (fr, tot)) (fkept t a).
+Proof. intros Hin Hv. apply fkept_exact. split; auto. lia. Qed.
+
+Lemma free_get_is_difference t a i f : wf t -> wf a -> nth_error cap_fields i = Some f ->
+  free_get f t a = Some (nth i t 0 - nth i a 0).
+Proof.
+  intros Ht Ha Hf. unfold free_get. rewrite free_is_sub.
+  assert (Hi : (i < nfields)%nat) by (apply nth_error_Some; congruence).
+  assert (Hlen : List.length (csub t a) = nfields) by (unfold csub; rewrite map2_length; unfold wf in *; lia).
+  rewrite <- (fieldwise_sub t a i) by (unfold wf in *; lia).
+  revert Hlen. generalize (csub t a) as c. intros c Hlen.
+  unfold getf, named.
+  (* the i-th name is found first at position i because the names are distinct *)
+  pose proof fields_nodup as ND. unfold nfields in *.
+  revert c i Hf Hi Hlen ND. generalize cap_fields as names.
+  induction names as [|n names IH]; intros c i Hf Hi Hlen ND; [simpl in Hi; lia|].
+  destruct c as [|v c]; [simpl in Hlen; lia|]. simpl.
+  destruct i as [|i]; simpl in Hf.
+  - injection Hf as ->. rewrite String.eqb_refl. reflexivity.
+  - inversion ND as [|? ? Hnot ND']; subst.
+    destruct (String.eqb n f) eqn:E.
+    + apply String.eqb_eq in E; subst. exfalso. apply Hnot. eapply nth_error_In; eauto.
+    + simpl. apply IH; auto; simpl in *; lia.
 Qed.
